@@ -32,7 +32,8 @@ RULE = ('programs of <=4 NumPy-API operations (all 78 function.HANDLED_FUNCTIONS
         'generated per (environment, target operation, index) from the seed: a systematic part (every operation as the last call, in each of 6 '
         'environments: function.eval without sample, plain, mixed-element, boundary, 2-space and 3-space product samples), random compositions, '
         'hostile corners (out-of-range / reversed slices, several index arrays, negative transpose axes, abs of bool, interp with int fp and float '
-        'left/right), targeted negative function-valued indices into bases / stacked operands, integer-range-sensitive compositions (integer constants '
+        'left/right), a sibling family BINOP(OP(x;p), OP(y;q)) with (x,p) != (y,q) for every operation (same operand / different parameter, same parameter / '
+        'different operand, both; selector or index constant vs function valued; BINOP in multiply add subtract maximum equal minimum), targeted negative function-valued indices into bases / stacked operands, integer-range-sensitive compositions (integer constants '
         'and element indices of one sign class combined by stack/concatenate/choose/arithmetic, then minimum/maximum/clip/mod/floor_divide/comparison/'
         'where-like/indexing with the other operand at the edge of the true range), direct calls of function.broadcast_shapes / '
         'broadcast_arrays / typecast_arrays, and shape perturbations (one axis length of one operand) that numpy rejects. non-trivial = at least one operation node was built on a function array, evaluated on the '
@@ -55,6 +56,8 @@ RAND = {'quick': 1400, 'thorough': 36000}       # random compositions
 REJECT_PER = {'quick': 12, 'thorough': 120}     # rejection cases per shape-sensitive operation
 HOSTILE_PER = {'quick': 3, 'thorough': 20}      # per (hostile corner, environment)
 FNINDEX_PER = {'quick': 8, 'thorough': 80}      # per (take|getitem, environment): negative function-valued index into a basis / stacked operand
+SIBLING_PER = {'quick': 3, 'thorough': 40}       # BINOP(OP(x;p), OP(y;q)) cases per operation (unary ufuncs: a third; key operations such as choose/take/stack: x4)
+SIBLING_ENVS = ['const', 'plain', 'mixed', 'const', 'boundary', 'prod2', 'plain', 'const', 'mixed', 'prod3', 'plain', 'boundary']
 INTRANGE_PER = {'quick': 40, 'thorough': 1200}  # integer-range-sensitive compositions (x INTRANGE_WEIGHT per environment)
 INTRANGE_WEIGHT = {'const': 3., 'plain': 1.5, 'mixed': .5, 'boundary': .5, 'prod2': .4, 'prod3': .2}
 HELPER_UNITS = {'quick': 4, 'thorough': 30}     # x100 direct calls of function.broadcast_shapes / broadcast_arrays / typecast_arrays
@@ -115,6 +118,9 @@ def plan(tier, seed):
     for env in ENV_NAMES:
         if env != 'const':
             units.append(dict(kind='fnindex', env=env, n=FNINDEX_PER[tier]))
+    from vlib.c07_gen import SIBLING_OPS
+    for k in range(0, len(SIBLING_OPS), 8):
+        units.append(dict(kind='sibling', ops=SIBLING_OPS[k:k + 8], n=SIBLING_PER[tier]))
     for env in ENV_NAMES:
         n = max(2, int(round(INTRANGE_PER[tier] * INTRANGE_WEIGHT[env])))
         for k in range(0, n, 40):
@@ -374,6 +380,26 @@ def run_unit(u, seed, res, ctx):
                 res.count('cases/reject')
     elif u['kind'] == 'helpers':
         run_helpers(u, seed, res, ctx)
+    elif u['kind'] == 'sibling':
+        nb, nv = len(c07_gen.SIBLING_BINOPS), len(c07_gen.SIBLING_VARIANTS)
+        for j, opname in enumerate(u['ops']):
+            n = sibling_reps(opname, u['n'])
+            off = c07_gen.SIBLING_OPS.index(opname)
+            for i in range(n):
+                if ctx.expired():
+                    res.count('cases_skipped_deadline')
+                    continue
+                k = off + i * 7
+                env = SIBLING_ENVS[k % len(SIBLING_ENVS)]
+                binop = c07_gen.SIBLING_BINOPS[(off + i) % nb]
+                variant = c07_gen.SIBLING_VARIANTS[(off // nb + i) % nv]
+                key = ['sibling', env, opname, binop, variant, i]
+                rng = rng_for(seed, 'c07', *key)
+                case = c07_gen.generate_sibling(env, rng, res, opname, binop, variant)
+                prog = finish(case, res, key)
+                res.count('cases/sibling')
+                if opname == 'choose' and i == 0:
+                    res.sample(dict(key=key, program=slim(prog)), cap=1)
     elif u['kind'] == 'intrange':
         for i in range(u['start'], u['stop']):
             if ctx.expired():
@@ -812,6 +838,8 @@ def finalize(m, tier, seed):
         rejection_exception_types=sorted(m.sets.get('reject_exception_types', ())),
         hostile=_sub(c, 'hostile/'),
         helpers=_sub(c, 'helpers/'),
+        sibling_cases=dict(per_operation=_sub(c, 'sibling/'), binop=_sub(c, 'sibling_binop/'), variant=_sub(c, 'sibling_variant/'), values=_sub(c, 'sibling_values/'),
+                           selector=_sub(c, 'sibling_index/'), not_built=_sub(c, 'sibling_not_built/')),
         integer_range_cases=dict(combiner=_sub(c, 'intrange/combiner/'), consumer=_sub(c, 'intrange/consumer/'), sign_class=_sub(c, 'intrange/class/')),
         excluded_corners=_sub(c, 'excluded_corner/'),
         accepted_kind_differences_seen=_sub(c, 'accepted_kind_difference/'),
@@ -835,13 +863,39 @@ def finalize(m, tier, seed):
         inc = 'rejection monitor barely reached'
     elif cov['node_evaluations'] and cov['marginal'] > .005 * cov['node_evaluations']:
         inc = f"{cov['marginal']} marginal float comparisons (> 0.5 %)"
+    elif sibling_floor(cov, tier):
+        inc = sibling_floor(cov, tier)
     elif len(cov['per_dtype_pair']) < 14:
         inc = 'fewer than 14 of the 16 dtype pairs exercised'
     return dict(coverage=cov, inconclusive=inc)
+
+
+def sibling_reps(opname, per):
+    from vlib.c07_ops import UNARY
+    from vlib.c07_gen import SIBLING_KEY_OPS
+    return max(1, per // 3) if opname in UNARY else 4 * per if opname in SIBLING_KEY_OPS else per
+
+
+def sibling_floor(cov, tier):
+    """reach floor of the sibling family BINOP(OP(x;p), OP(y;q)): None if reached, else the reason"""
+    from vlib.c07_gen import SIBLING_OPS, SIBLING_KEY_OPS
+    per = cov['sibling_cases']['per_operation']
+    missing_key = [n for n in SIBLING_KEY_OPS if not per.get(n)]
+    reached = sum(1 for n in SIBLING_OPS if per.get(n))
+    if missing_key:
+        return f'sibling family BINOP(OP(x;p), OP(y;q)) not reached for {missing_key}'
+    if reached < .8 * len(SIBLING_OPS):
+        return f'sibling family reached for only {reached} of {len(SIBLING_OPS)} operations'
+    if cov['sibling_cases']['values'].get('different', 0) < 40:
+        return 'fewer than 40 sibling cases in which the two siblings have different values'
+    return None
 
 
 def expected_cases(tier):
     from vlib.c07_ops import OPS
     from vlib.c07_env import ENV_NAMES
     from vlib.c07_gen import SHAPE_SENSITIVE, HOSTILE
-    return 100 * HELPER_UNITS[tier] + 2 * 5 * FNINDEX_PER[tier] + sum(max(2, int(round(INTRANGE_PER[tier] * INTRANGE_WEIGHT[e]))) for e in ENV_NAMES) + int(len(OPS) * sum(max(1, int(round(SYS_PER[tier] * ENV_WEIGHT[e]))) for e in ENV_NAMES)) + RAND[tier] + int(.5 * len(SHAPE_SENSITIVE) * REJECT_PER[tier]) + len(HOSTILE) * len(ENV_NAMES) * HOSTILE_PER[tier]
+    from vlib.c07_gen import SIBLING_OPS
+    from vlib.c07_ops import UNARY
+    nsib = sum(sibling_reps(n, SIBLING_PER[tier]) for n in SIBLING_OPS)
+    return nsib + 100 * HELPER_UNITS[tier] + 2 * 5 * FNINDEX_PER[tier] + sum(max(2, int(round(INTRANGE_PER[tier] * INTRANGE_WEIGHT[e]))) for e in ENV_NAMES) + int(len(OPS) * sum(max(1, int(round(SYS_PER[tier] * ENV_WEIGHT[e]))) for e in ENV_NAMES)) + RAND[tier] + int(.5 * len(SHAPE_SENSITIVE) * REJECT_PER[tier]) + len(HOSTILE) * len(ENV_NAMES) * HOSTILE_PER[tier]
